@@ -16,6 +16,22 @@ def only(*names):
 
 
 PROPERTIES = {
+    "C08": {
+        "harness_modules": ["contracts.reduce"],
+        "level": "proof",
+        "assumptions": S_ALL + ["lemma.refine (proved in contracts.assume) is used as a fact about compound children"],
+        "explanation": "AtLeast.reduce (real source): post.bounds / post.meaning (ival(reduce(self), e) == ival(self, e) for every "
+                       "in-bounds interpretation e of leaves) / post.noconst / id / invariant, for every child count.",
+    },
+    "C06": {
+        "harness_modules": ["contracts.assume", "contracts.flags"],
+        "harness_filter": only("AtLeast.assume", "variable.assume", "variable.evaluate", "lemma.ival_wf", "lemma.sound",
+                               "AtLeast.flags"),
+        "level": "proof",
+        "assumptions": S_ALL,
+        "explanation": "assume/post.bounds (the reported bounds are ival) + lemma.sound (ival contains the value under every "
+                       "completion) + is_tautology / is_contradiction / equation_bounds soundness and exactness.",
+    },
     "C07": {
         "harness_modules": ["contracts.assume"],
         "harness_filter": only("AtLeast.assume", "variable.assume", "lemma.ival_wf", "lemma.refine"),
